@@ -5,8 +5,10 @@ import (
 	"fmt"
 	"os"
 	"runtime"
+	"slices"
 	"sort"
 	"strconv"
+	"strings"
 	"testing"
 	"testing/synctest"
 	"time"
@@ -104,6 +106,8 @@ type Replay struct {
 	Trace       []string          `json:"trace"`
 	Faults      map[string]int    `json:"faults"`
 	Minimised   bool              `json:"minimised"`
+	Regenerate  bool              `json:"regenerate,omitempty"` // no tape: re-run generation from the seed (race reports)
+	RaceReport  string            `json:"race_report,omitempty"`
 	ShrinkRuns  int               `json:"shrink_runs"`
 	OrigTapeLen int               `json:"orig_tape_len"`
 }
@@ -141,7 +145,7 @@ func TestWorker(t *testing.T) {
 	if eng := os.Getenv("VERIF_ENGINE"); eng != "" {
 		var cs []Case
 		for _, c := range cases {
-			if c.Engine == eng {
+			if slices.Contains(strings.Split(eng, ","), c.Engine) {
 				cs = append(cs, c)
 			}
 		}
@@ -169,6 +173,7 @@ func TestWorker(t *testing.T) {
 		defer dl.Close()
 	}
 
+	printStart := os.Getenv("VERIF_PRINT_START") != ""
 	var weights []int
 	for _, c := range cases {
 		weights = append(weights, c.Weight)
@@ -197,6 +202,9 @@ func TestWorker(t *testing.T) {
 		count[ci]++
 		seed := kernel.Hash64(base, prop+"/"+c.Engine, idx)
 		runStart := time.Now()
+		if printStart {
+			fmt.Printf("START %s %d\n", c.Engine, seed)
+		}
 		for _, x := range c.Real {
 			realSet[x] = true
 		}
@@ -326,7 +334,11 @@ func doReplay(t *testing.T, path, outPath string) {
 	if c == nil {
 		t.Fatalf("no case %s/%s", rp.Property, rp.Engine)
 	}
-	res := runOne(t, *c, kernel.ReplayTape(rp.Seed, rp.Tape))
+	tape := kernel.ReplayTape(rp.Seed, rp.Tape)
+	if rp.Regenerate {
+		tape = kernel.NewTape(rp.Seed)
+	}
+	res := runOne(t, *c, tape)
 	out := map[string]any{"reproduced": sameViolation(res.Viol, rp.Violation) && res.Viol.Step == rp.Violation.Step && res.Viol.Msg == rp.Violation.Msg,
 		"same_oracle": sameViolation(res.Viol, rp.Violation), "violation": res.Viol, "expected": rp.Violation, "trace": res.Trace, "schedule": res.Sched}
 	ob, _ := json.MarshalIndent(out, "", " ")
